@@ -160,7 +160,8 @@ VALUES = [
     (r'std::forward<Result>\(r\)\.Value\(\)', 'RES_VALUE(r)', 0),
     (r'std::forward<Result>\(r\)\.Exception\(\)', 'RES_EXC(r)', 0),
     (r'std::forward<Result>\(r\)\.Error\(\)', 'RES_ERR(r)', 0),
-    (r'std::get<T>\(\s*std::forward<Result>\(r\)\.Internal\(\)\s*\)', 'RES_ALT(r, kState)', 0),
+    # std::get<T> with `using T = std::conditional_t<kIsException, std::exception_ptr, E>`: the alternative asked for is fixed by the callback's signature, not by a local the code may or may not keep
+    (r'std::get<T>\(\s*std::forward<Result>\(r\)\.Internal\(\)\s*\)', 'RES_ALT(r, (kIsException ? RS_Exception : RS_Error))', 0),
     (r'std::move\(r\)', 'RES_WHOLE(r)', 0),
     (r'r\.State\(\)', 'RES_STATE(r)', 0),
     (r'Result<Arg,\s*E>\{\s*Unit\{\}\s*\}', 'RES_UNIT()', 0),
